@@ -314,6 +314,11 @@ def construct_models_in_parallel(sample, chr_id, dump_filename, args, read_group
             tmp_extended_gff_printer.dump(gene_info, all_models)
         aggregator.transcript_model_global_counter.dump()
         transcript_stat_counter.dump(transcript_stat_file)
+    # everything the lock announces must be complete on disk before the lock exists
+    aggregator.global_printer.flush()
+    sqanti_t2t_printer.flush()
+    tmp_gff_printer.close()
+    tmp_extended_gff_printer.close()
     logger.info("Finished processing chromosome " + chr_id)
     open(lock_file, "w").close()
 
